@@ -923,7 +923,7 @@ class FileHashStore(HashStore):
                     if self.use_multiprocessing:
                         with self.metadata_condition_mp:
                             # Wait for the pid to release if it's in use
-                            while pid in self.metadata_locked_docs_mp:
+                            while pid_doc in self.metadata_locked_docs_mp:
                                 self.fhs_logger.debug(sync_wait_msg)
                                 self.metadata_condition_mp.wait()
                             # Modify metadata_locked_docs consecutively
@@ -931,7 +931,7 @@ class FileHashStore(HashStore):
                             self.metadata_locked_docs_mp.append(pid_doc)
                     else:
                         with self.metadata_condition_th:
-                            while pid in self.metadata_locked_docs_th:
+                            while pid_doc in self.metadata_locked_docs_th:
                                 self.fhs_logger.debug(sync_wait_msg)
                                 self.metadata_condition_th.wait()
                             self.fhs_logger.debug(sync_begin_debug_msg)
@@ -939,6 +939,9 @@ class FileHashStore(HashStore):
                     try:
                         # Mark metadata doc for deletion
                         objects_to_delete.append(self._rename_path_for_deletion(path))
+                    except FileNotFoundError:
+                        # Already removed by a concurrent request since the directory was listed
+                        self.fhs_logger.debug("Metadata doc already deleted: %s", path)
                     finally:
                         # Release pid
                         end_sync_debug_msg = (
@@ -975,7 +978,7 @@ class FileHashStore(HashStore):
             if self.use_multiprocessing:
                 with self.metadata_condition_mp:
                     # Wait for the pid to release if it's in use
-                    while pid in self.metadata_locked_docs_mp:
+                    while pid_doc in self.metadata_locked_docs_mp:
                         self.fhs_logger.debug(sync_wait_msg)
                         self.metadata_condition_mp.wait()
                     # Modify metadata_locked_docs consecutively
@@ -983,7 +986,7 @@ class FileHashStore(HashStore):
                     self.metadata_locked_docs_mp.append(pid_doc)
             else:
                 with self.metadata_condition_th:
-                    while pid in self.metadata_locked_docs_th:
+                    while pid_doc in self.metadata_locked_docs_th:
                         self.fhs_logger.debug(sync_wait_msg)
                         self.metadata_condition_th.wait()
                     self.fhs_logger.debug(sync_begin_debug_msg)
